@@ -122,7 +122,7 @@ type affState struct {
 	emits   map[string][]affItem // per target (canonical "X.Points")
 	cond    []string
 	sc      []affCond // structured comparisons among the path conditions
-	stopped string // "", return, continue, break
+	stopped string    // "", return, continue, break
 	ret     aval
 	hasRet  bool
 }
@@ -172,10 +172,10 @@ type affLoop struct {
 	elem      string
 	dir       int
 	full      bool
-	carried  map[string]*affCarried
-	paths    []*affState
-	parent   *affLoop
-	fn       string
+	carried   map[string]*affCarried
+	paths     []*affState
+	parent    *affLoop
+	fn        string
 }
 
 type affExec struct {
@@ -423,6 +423,15 @@ func (x *affExec) call(c *ast.CallExpr, st *affState) aval {
 			return linAtom(b.Name() + "(" + strings.Join(as, ", ") + ")")
 		case "len":
 			return linAtom("len(" + x.canon(c.Args[0], st) + ")")
+		case "make":
+			// make([]T, 0[, n]) is the empty list
+			if len(c.Args) >= 2 {
+				if _, isSlice := x.info.TypeOf(c.Args[0]).Underlying().(*types.Slice); isSlice {
+					if l, ok := x.eval(c.Args[1], st).(lin); ok && l.isConst() && l.k == 0 {
+						return aseq{}
+					}
+				}
+			}
 		case "append":
 			base := x.eval(c.Args[0], st)
 			if a, ok := base.(aseq); ok && !c.Ellipsis.IsValid() {
@@ -640,6 +649,8 @@ func (x *affExec) assignTo(lhs ast.Expr, v aval, st *affState, pos token.Pos) {
 					items = append(items, affItem{val: e})
 				}
 				st.emits[key] = items
+			} else if sy, ok := v.(asym); ok && sy.s == "nil" {
+				st.emits[key] = []affItem{}
 			} else {
 				st.emits[key] = []affItem{{val: v}}
 			}
@@ -926,8 +937,28 @@ func (x *affExec) stmt(s ast.Stmt, st *affState) []*affState {
 				}
 			}
 			c := strings.Join(cs, " || ")
+			// structured form of the clause's comparisons (the clause itself only when it has a single expression; the
+			// fall-through always carries the negation of every expression)
+			var scs []affCond
+			for _, e := range cl.List {
+				if v.Tag != nil {
+					scs = append(scs, affCond{op: "==", l: x.eval(v.Tag, rest), r: x.eval(e, rest)})
+				} else if be, ok := ast.Unparen(e).(*ast.BinaryExpr); ok {
+					switch be.Op {
+					case token.LSS, token.LEQ, token.GTR, token.GEQ, token.EQL, token.NEQ:
+						scs = append(scs, affCond{op: be.Op.String(), l: x.eval(be.X, rest), r: x.eval(be.Y, rest)})
+					}
+				}
+			}
 			a := rest.clone()
 			a.cond = append(a.cond, c)
+			if len(cl.List) == 1 && len(scs) == 1 {
+				a.sc = append(a.sc, scs[0])
+			}
+			for _, n := range scs {
+				n.neg = true
+				rest.sc = append(rest.sc, n)
+			}
 			for _, o := range x.block(cl.Body, []*affState{a}) {
 				if o.stopped == "break" {
 					o.stopped = ""
@@ -1057,6 +1088,33 @@ func (x *affExec) loop(s ast.Stmt, st *affState) []*affState {
 		return "", 0, l.k
 	}
 	if ls.kind == "range" {
+		if r, ok := s.(*ast.RangeStmt); ok && ls.keyVar != "" {
+			// index of the first and of the last iteration of a range over a slice / array / integer
+			z := linConst(0)
+			var last *lin
+			switch t := x.info.TypeOf(r.X); u := t.Underlying().(type) {
+			case *types.Slice, *types.Array:
+				_ = u
+				if ls.over != "" && r.Value != nil || isNumeric(x.info.TypeOf(r.Key)) {
+					l := linAtom("len("+ls.over+")").add(linConst(1), -1)
+					last = &l
+				}
+			case *types.Basic:
+				if u.Info()&types.IsInteger != 0 {
+					if b, ok := x.eval(r.X, st).(lin); ok {
+						l := b.add(linConst(1), -1)
+						last = &l
+					}
+				}
+			}
+			if last != nil {
+				if ls.backward {
+					ls.initLin, ls.lastLin = last, &z
+				} else {
+					ls.initLin, ls.lastLin = &z, last
+				}
+			}
+		}
 		ls.container = ls.over
 		ls.full = true
 		ls.dir = 1
